@@ -165,10 +165,8 @@ def reuseTrace : List Label :=
 
 `csi.Parameters` is a slice of slices: the cells of a `[][]int` array are slice *headers* over
 `[]int` arrays, so two heaps.  The parser goroutine runs `csiDispatch` while the consumer goroutine
-may call `Finish` on sequences it holds, so the `Get`s of one dispatch are separate steps which
-interleave with `finish` steps.  `Finish` itself is one step: its `Put`s only make more arrays
-available to `Get` and it only reads cells of the list array it has not yet `Put`, so performing all
-of them at the moment of the first one only adds behaviours. -/
+may call `Finish` on sequences it holds: the `Get`s of one dispatch and the `Put`s of one `Finish`
+are separate steps which interleave freely (several `Finish` calls may be in progress, too). -/
 
 /-- A delivered CSI's `Parameters`; `snap` is a ghost field: the parameter values read through the
     slice at the moment of delivery. -/
@@ -190,6 +188,8 @@ structure PSt where
       appended to the list and before the next `Get`) -/
   work : Option (Slice × Option Slice) := none
   delivered : List PDeliv := []
+  /-- `Finish` calls in progress: the sequence's `Parameters` header and the loop index -/
+  fin : List (Slice × Nat) := []
   deriving DecidableEq, Repr, Inhabited
 
 def PSt.init : PSt := {}
@@ -212,8 +212,11 @@ inductive PLabel
   | push (newcap : Nat)
   /-- `p.emit(csi)` (all params pushed) -/
   | emit
-  /-- the consumer calls `Finish` on delivered CSI number `k` -/
+  /-- the consumer calls `Finish` on delivered CSI number `k` (from now on it is not "held") -/
   | finish (k : Nat)
+  /-- the next `Put` of the `Finish` call number `j` in progress: `paramPool.Put(seq.Parameters[i])`
+      while `i < len`, then `paramListPool.Put(seq.Parameters)` which ends the call -/
+  | finPut (j : Nat)
   deriving DecidableEq, Repr, Inhabited
 
 def pstep (s : PSt) : PLabel → Option PSt
@@ -268,9 +271,14 @@ def pstep (s : PSt) : PLabel → Option PSt
   | .finish k =>
     match s.delivered[k]? with
     | none => none
-    | some d =>
-      some { s with ppool := hdrs s.lheap d.l ++ s.ppool, lpool := d.l :: s.lpool,
-                    delivered := s.delivered.eraseIdx k }
+    | some d => some { s with delivered := s.delivered.eraseIdx k, fin := (d.l, 0) :: s.fin }
+  | .finPut j =>
+    match s.fin[j]? with
+    | none => none
+    | some (l, i) =>
+      match (hdrs s.lheap l)[i]? with
+      | some h => some { s with ppool := h :: s.ppool, fin := (l, i + 1) :: s.fin.eraseIdx j }
+      | none => some { s with lpool := l :: s.lpool, fin := s.fin.eraseIdx j }
 
 def prun : PSt → List PLabel → Option PSt
   | s, [] => some s
@@ -289,7 +297,17 @@ def pAllIntact (s : PSt) : Bool := s.delivered.all fun d => d.now s == d.snap
 def pReuseTrace : List PLabel :=
   [.begin none, .get none, .app 1 0, .push 0, .get none, .app 2 0, .app 3 0, .push 0, .emit,
    .begin none, .get none, .app 4 0, .push 0, .emit,
-   .finish 1,
+   .finish 1, .finPut 0, .finPut 0, .finPut 0,
    .begin (some 0), .get (some 0), .app 5 0, .push 0, .get (some 0), .app 6 0, .push 0, .emit]
+
+/-- The same with the parser running ahead of the `Finish` loop: the second parameter array is
+    taken as soon as it is put, the list only at the next CSI. -/
+def pReuseTrace2 : List PLabel :=
+  [.begin none, .get none, .app 1 0, .push 0, .get none, .app 2 0, .app 3 0, .push 0, .emit,
+   .begin none, .get none, .app 4 0,
+   .finish 0, .finPut 0,
+   .push 0, .emit,
+   .begin none, .get (some 0), .app 5 0, .push 0,
+   .finPut 0, .get (some 0), .app 6 0, .push 0, .emit, .finPut 0]
 
 end VaxisModel.Model.ParserPools
